@@ -388,6 +388,74 @@ def fam_rings(rng, nmax):
     return funcs, []
 
 
+def fam_inputs_mix(rng, nmax):
+    """A small core read by and reading from: genuine inputs (free or `x = x`), constants,
+    and *pseudo-inputs* — variables whose update function collapses to the identity only
+    after a constant is percolated (`x = x & c`, `x = x | !c`, `x = c ? x : y`).  The places
+    where 'source variable' means different things (network, percolated network, Petri
+    net, cached restricted net) disagree on exactly these."""
+    nmax = max(4, nmax)
+    n_core = rng.randint(2, max(2, nmax - 3))
+    funcs, free = fam_sparse(rng, n_core, p_input=0.0, p_const=0.0, kmax=2)
+    specials = []
+    room = nmax - n_core
+    kinds = ["input", "const", "pseudo", "pseudo"]
+    rng.shuffle(kinds)
+    consts = []
+    for kind in kinds[:room]:
+        i = len(funcs)
+        if kind == "input":
+            funcs.append([[i], [0, 1]])
+            if rng.random() < 0.5:
+                free.append(i)
+        elif kind == "const":
+            funcs.append([[], [rng.randint(0, 1)]])
+            consts.append(i)
+        else:
+            funcs.append(None)  # filled below, needs a constant
+        specials.append(i)
+    if not consts:
+        for i in specials:
+            if funcs[i] is None:
+                funcs[i] = [[], [rng.randint(0, 1)]]
+                consts.append(i)
+                break
+    for i in specials:
+        if funcs[i] is None:
+            if not consts:
+                funcs[i] = [[i], [0, 1]]
+                continue
+            c = rng.choice(consts)
+            cv = funcs[c][1][0]
+            form = rng.choice(["and", "or", "mux"])
+            lo, hi = (i, c) if i < c else (c, i)
+            # truth table over sorted regs; bit j of the index is regs[j]
+            def tt2(f):
+                return [f(**{"x": (idx >> (0 if lo == i else 1)) & 1, "k": (idx >> (0 if lo == c else 1)) & 1}) for idx in range(4)]
+            if form == "and":
+                funcs[i] = [[lo, hi], tt2(lambda x, k: x & (k if cv else 1 - k))]
+            elif form == "or":
+                funcs[i] = [[lo, hi], tt2(lambda x, k: x | ((1 - k) if cv else k))]
+            else:
+                y = rng.randrange(n_core)
+                regs = sorted({i, c, y})
+                tt = []
+                for idx in range(1 << len(regs)):
+                    val = {r: (idx >> j) & 1 for j, r in enumerate(regs)}
+                    tt.append(val[i] if val[c] == cv else val[y])
+                funcs[i] = [regs, tt]
+    # let the core read some of the specials
+    for tgt in range(n_core):
+        if specials and rng.random() < 0.6:
+            regs, tt = funcs[tgt]
+            g = rng.choice(specials)
+            if g not in regs and len(regs) < 3:
+                alt = [rng.randint(0, 1) for _ in tt]
+                regs2 = regs + [g]
+                funcs[tgt] = [regs2, (tt + alt) if rng.random() < 0.5 else (alt + tt)]
+    return funcs, free
+
+
 def fam_degenerate(rng, nmax):
     """Edge shapes: one-variable networks, only constants, only inputs, self-loops
     (x = x, x = !x), a single relay chain."""
@@ -412,7 +480,7 @@ def fam_degenerate(rng, nmax):
     return funcs, free
 
 
-FAMILIES = ["sparse", "dense", "canal", "modular", "maa", "cascade", "maa_cascade", "degenerate", "maa_deadpad", "rings"]
+FAMILIES = ["sparse", "dense", "canal", "modular", "maa", "cascade", "maa_cascade", "degenerate", "maa_deadpad", "rings", "inputs_mix"]
 
 
 def gen_network(rng, weights=None, nmin=2, nmax=6, fmts=("bnet", "aeon"), names=None, shuffle_order=False):
@@ -440,6 +508,8 @@ def gen_network(rng, weights=None, nmin=2, nmax=6, fmts=("bnet", "aeon"), names=
         funcs, free = fam_maa_deadpad(rng, nmax)
     elif fam == "rings":
         funcs, free = fam_rings(rng, nmax)
+    elif fam == "inputs_mix":
+        funcs, free = fam_inputs_mix(rng, nmax)
     elif fam == "cascade":
         funcs, free = fam_cascade(rng, rng.randint(max(nmin, 3), nmax))
     else:
